@@ -31,6 +31,16 @@ func callTexts20(f *goast.File, fd *ast.FuncDecl, name string) []string {
 // ("ops = append(ops, ...)" means: collected into the op list handed to Then).
 func putKeys20(f *goast.File, fd *ast.FuncDecl) []string {
 	var out []string
+	// the variable handed to .Then(x...)
+	opsVar := ""
+	ast.Inspect(fd.Body, func(n ast.Node) bool {
+		if c, ok := n.(*ast.CallExpr); ok {
+			if se, ok := c.Fun.(*ast.SelectorExpr); ok && se.Sel.Name == "Then" && len(c.Args) == 1 && c.Ellipsis.IsValid() {
+				opsVar = f.Src(c.Args[0])
+			}
+		}
+		return true
+	})
 	for _, st := range fd.Body.List {
 		ast.Inspect(st, func(n ast.Node) bool {
 			c, ok := n.(*ast.CallExpr)
@@ -39,9 +49,9 @@ func putKeys20(f *goast.File, fd *ast.FuncDecl) []string {
 			}
 			if se, ok := c.Fun.(*ast.SelectorExpr); ok && se.Sel.Name == "OpPut" && len(c.Args) >= 1 {
 				form := "other"
-				if as, ok := st.(*ast.AssignStmt); ok && len(as.Lhs) == 1 && f.Src(as.Lhs[0]) == "ops" {
-					if ap, ok := as.Rhs[0].(*ast.CallExpr); ok && f.Src(ap.Fun) == "append" && len(ap.Args) == 2 && f.Src(ap.Args[0]) == "ops" {
-						form = "ops"
+				if as, ok := st.(*ast.AssignStmt); ok && len(as.Lhs) == 1 && opsVar != "" && f.Src(as.Lhs[0]) == opsVar {
+					if ap, ok := as.Rhs[0].(*ast.CallExpr); ok && f.Src(ap.Fun) == "append" && len(ap.Args) == 2 && f.Src(ap.Args[0]) == opsVar {
+						form = "THEN"
 					}
 				}
 				out = append(out, form+":"+f.Src(c.Args[0]))
@@ -91,7 +101,7 @@ func handlers20(f *goast.File) []string {
 				}
 			case *ast.BinaryExpr:
 				t := f.Src(x)
-				if x.Op.String() == "!=" && strings.Contains(t, "GetClusterId()") && strings.Contains(t, "s.clusterID") {
+				if x.Op.String() == "!=" && strings.Contains(t, "GetClusterId()") && strings.Contains(t, ".clusterID") {
 					kinds = append(kinds, "compare")
 				}
 			}
@@ -129,7 +139,7 @@ func preValidation20(f *goast.File) []string {
 				}
 			case *ast.BinaryExpr:
 				t := f.Src(y)
-				if y.Op.String() == "!=" && strings.Contains(t, "GetClusterId()") && strings.Contains(t, "s.clusterID") {
+				if y.Op.String() == "!=" && strings.Contains(t, "GetClusterId()") && strings.Contains(t, ".clusterID") {
 					found = true
 				}
 			}
@@ -222,44 +232,49 @@ func genC20(repo string) (string, error) {
 	opt := goast.SkelOpt{Calls: set("validateRequest", "GetRaftCluster", "bootstrapCluster", "checkBootstrapRequest", "OpPut", "OpGet", "Compare",
 		"Commit", "If", "Then", "Else", "SaveRegion", "Flush", "Start", "Put", "Txn", "NewSlowLogTxn", "EtcdKVGet", "initOrGetClusterID",
 		"BytesToUint64", "IsClosed", "IsLeader", "IsRunning", "LoadClusterInfo"),
-		Assigns: set("clusterID", "ops", "running"), Conds: true}
-	if err := o.skeleton(grpc, "Server", "Bootstrap", "skel_Bootstrap", opt); err != nil {
+		Assigns: set("clusterID", "running"), Conds: true}
+	if err := o.skeletonCanon(grpc, "Server", "Bootstrap", "skel_Bootstrap", opt); err != nil {
 		return "", err
 	}
-	if err := o.skeleton(grpc, "Server", "IsBootstrapped", "skel_IsBootstrapped", opt); err != nil {
+	if err := o.skeletonCanon(grpc, "Server", "IsBootstrapped", "skel_IsBootstrapped", opt); err != nil {
 		return "", err
 	}
-	if err := o.skeleton(grpc, "Server", "validateRequest", "skel_validateRequest", opt); err != nil {
+	if err := o.skeletonCanon(grpc, "Server", "validateRequest", "skel_validateRequest", opt); err != nil {
 		return "", err
 	}
-	if err := o.skeleton(srv, "Server", "bootstrapCluster", "skel_bootstrapCluster", opt); err != nil {
+	if err := o.skeletonCanon(srv, "Server", "bootstrapCluster", "skel_bootstrapCluster", opt); err != nil {
 		return "", err
 	}
-	if err := o.skeleton(srv, "Server", "initClusterID", "skel_initClusterID", opt); err != nil {
+	if err := o.skeletonCanon(srv, "Server", "initClusterID", "skel_initClusterID", opt); err != nil {
 		return "", err
 	}
-	if err := o.skeleton(srv, "Server", "GetRaftCluster", "skel_GetRaftCluster", opt); err != nil {
+	if err := o.skeletonCanon(srv, "Server", "GetRaftCluster", "skel_GetRaftCluster", opt); err != nil {
 		return "", err
 	}
-	if err := o.skeleton(util, "", "initOrGetClusterID", "skel_initOrGetClusterID", opt); err != nil {
+	if err := o.skeletonCanon(util, "", "initOrGetClusterID", "skel_initOrGetClusterID", opt); err != nil {
 		return "", err
 	}
-	if err := o.skeleton(util, "", "checkBootstrapRequest", "bootstrap_checks", goast.SkelOpt{Conds: true}); err != nil {
+	if err := o.skeletonCanon(util, "", "checkBootstrapRequest", "bootstrap_checks", goast.SkelOpt{Conds: true}); err != nil {
 		return "", err
 	}
 	bc, err := srv.Func("Server", "bootstrapCluster")
 	if err != nil {
 		return "", err
 	}
-	o.strList("bootstrap_cmps", srv.Compares(bc), "clientv3.Compare calls of bootstrapCluster")
-	o.strList("bootstrap_puts", putKeys20(srv, bc), "clientv3.OpPut keys of bootstrapCluster; ops: = collected into the list handed to Then")
-	o.strList("bootstrap_commits", callTexts20(srv, bc, "Commit"), "transaction chains of bootstrapCluster")
+	canonList := func(fd *ast.FuncDecl, name string, xs []string, comment string) {
+		var t out
+		t.strList(name, xs, comment)
+		o.sb.WriteString(canonLocals(fd, t.sb.String()))
+	}
+	canonList(bc, "bootstrap_cmps", srv.Compares(bc), "clientv3.Compare calls of bootstrapCluster")
+	canonList(bc, "bootstrap_puts", putKeys20(srv, bc), "clientv3.OpPut keys of bootstrapCluster; ops: = collected into the list handed to Then")
+	canonList(bc, "bootstrap_commits", callTexts20(srv, bc, "Commit"), "transaction chains of bootstrapCluster")
 	ig, err := util.Func("", "initOrGetClusterID")
 	if err != nil {
 		return "", err
 	}
-	o.strList("clusterid_cmps", util.Compares(ig), "clientv3.Compare calls of initOrGetClusterID")
-	o.strList("clusterid_commits", callTexts20(util, ig, "Commit"), "transaction chains of initOrGetClusterID")
+	canonList(ig, "clusterid_cmps", util.Compares(ig), "clientv3.Compare calls of initOrGetClusterID")
+	canonList(ig, "clusterid_commits", callTexts20(util, ig, "Commit"), "transaction chains of initOrGetClusterID")
 	// who else writes the bootstrap record or the cluster id key? (every Commit / Put site in server.go, util.go)
 	hs := handlers20(grpc)
 	if len(hs) < 20 {
@@ -279,6 +294,6 @@ func genC20(repo string) (string, error) {
 		}
 		return true
 	})
-	o.strList("syncer_sync_conds", conds, "if-conditions of RegionSyncer.Sync, source order")
+	canonList(sy, "syncer_sync_conds", conds, "if-conditions of RegionSyncer.Sync, source order")
 	return o.sb.String(), nil
 }
